@@ -281,6 +281,65 @@ static void reset_enc_dec(EncDecContext *context_ptr, PictureControlSet *pcs_ptr
  *   of the segment-row (b) as this would block other
  *   threads from performing an update (A).
  ******************************************************/
+
+#ifdef SVT_AV1_VERIF
+/* Verification hook H3 (guarded, add-only): EncDec segment trace.  SVT_VERIF_SEG_TRACE=<file>.
+ * kinds: 0 segment start, 1 superblock (x,y in tile-group SB units), 2 segment finish, 3 picture restarted (recode) */
+#include <pthread.h>
+#include <stdio.h>
+#include <stdlib.h>
+typedef struct { uint8_t kind; uint16_t tg, seg, x, y; uint32_t tid; uint64_t pic; const void *pcs; } VerifSegEv;
+static pthread_mutex_t   verif_seg_mx = PTHREAD_MUTEX_INITIALIZER;
+static VerifSegEv *      verif_seg_buf = NULL;
+static size_t            verif_seg_n = 0, verif_seg_cap = 0;
+static volatile int      verif_seg_state = 0;
+static const char *      verif_seg_path = NULL;
+static volatile uint32_t verif_seg_tid_next = 0;
+static __thread uint32_t verif_seg_tid = 0;
+EB_API void svt_verif_seg_trace_flush(void) {
+    if (verif_seg_state != 2 || !verif_seg_path) return;
+    pthread_mutex_lock(&verif_seg_mx);
+    FILE *f = fopen(verif_seg_path, "w");
+    if (f) {
+        for (size_t i = 0; i < verif_seg_n; i++) {
+            VerifSegEv *e = &verif_seg_buf[i];
+            fprintf(f, "%u %llu %p %u %u %u %u %u\n", e->kind, (unsigned long long)e->pic, e->pcs, e->tg, e->seg, e->x, e->y, e->tid);
+        }
+        fclose(f);
+    }
+    pthread_mutex_unlock(&verif_seg_mx);
+}
+static void verif_seg_ev(int kind, uint64_t pic, const void *pcs, unsigned tg, unsigned seg, unsigned x, unsigned y) {
+    if (verif_seg_state == 1) return;
+    pthread_mutex_lock(&verif_seg_mx);
+    if (verif_seg_state == 0) {
+        verif_seg_path  = getenv("SVT_VERIF_SEG_TRACE");
+        verif_seg_state = verif_seg_path ? 2 : 1;
+        if (verif_seg_state == 2) {
+            verif_seg_cap = 1u << 16;
+            verif_seg_buf = malloc(verif_seg_cap * sizeof(VerifSegEv));
+            atexit(svt_verif_seg_trace_flush);
+        }
+    }
+    if (verif_seg_state == 2 && verif_seg_buf) {
+        if (verif_seg_n == verif_seg_cap && verif_seg_cap < (1u << 24)) {
+            VerifSegEv *nb = realloc(verif_seg_buf, 2 * verif_seg_cap * sizeof(VerifSegEv));
+            if (nb) { verif_seg_buf = nb; verif_seg_cap *= 2; }
+        }
+        if (verif_seg_n < verif_seg_cap) {
+            if (!verif_seg_tid) verif_seg_tid = __sync_add_and_fetch(&verif_seg_tid_next, 1);
+            VerifSegEv *e = &verif_seg_buf[verif_seg_n++];
+            e->kind = (uint8_t)kind; e->pic = pic; e->pcs = pcs; e->tg = (uint16_t)tg; e->seg = (uint16_t)seg;
+            e->x = (uint16_t)x; e->y = (uint16_t)y; e->tid = verif_seg_tid;
+        }
+    }
+    pthread_mutex_unlock(&verif_seg_mx);
+}
+#define SVT_VERIF_SEG(kind, pcs, tg, seg, x, y) verif_seg_ev((kind), (pcs)->picture_number, (pcs), (tg), (seg), (x), (y))
+#else
+#define SVT_VERIF_SEG(kind, pcs, tg, seg, x, y)
+#endif
+
 EbBool assign_enc_dec_segments(EncDecSegments *segmentPtr, uint16_t *segmentInOutIndex,
                                EncDecTasks *taskPtr, EbFifo *srmFifoPtr) {
     EbBool           continue_processing_flag = EB_FALSE;
@@ -4402,6 +4461,7 @@ void *mode_decision_kernel(void *input_ptr) {
                                        &segment_index,
                                        enc_dec_tasks_ptr,
                                        context_ptr->enc_dec_feedback_fifo_ptr) == EB_TRUE) {
+            SVT_VERIF_SEG(0, pcs_ptr, context_ptr->tile_group_index, segment_index, 0, 0);
             x_sb_start_index = segments_ptr->x_start_array[segment_index];
             y_sb_start_index = segments_ptr->y_start_array[segment_index];
             sb_start_index = y_sb_start_index * tile_group_width_in_sb + x_sb_start_index;
@@ -4451,6 +4511,7 @@ void *mode_decision_kernel(void *input_ptr) {
                     sb_ptr = context_ptr->md_context->sb_ptr = pcs_ptr->sb_ptr_array[sb_index];
                     sb_origin_x = (x_sb_index + tile_group_x_sb_start) << sb_size_log2;
                     sb_origin_y = (y_sb_index + tile_group_y_sb_start) << sb_size_log2;
+                    SVT_VERIF_SEG(1, pcs_ptr, context_ptr->tile_group_index, segment_index, x_sb_index, y_sb_index);
                     //printf("[%ld]:ED sb index %d, (%d, %d), encoded total sb count %d, ctx coded sb count %d\n",
                     //        pcs_ptr->picture_number,
                     //        sb_index, sb_origin_x, sb_origin_y,
@@ -4682,6 +4743,7 @@ void *mode_decision_kernel(void *input_ptr) {
                 }
                 x_sb_start_index = (x_sb_start_index > 0) ? x_sb_start_index - 1 : 0;
             }
+            SVT_VERIF_SEG(2, pcs_ptr, context_ptr->tile_group_index, segment_index, 0, 0);
         }
 
         svt_block_on_mutex(pcs_ptr->intra_mutex);
@@ -4716,6 +4778,7 @@ void *mode_decision_kernel(void *input_ptr) {
             if (do_recode) {
 
                 pcs_ptr->enc_dec_coded_sb_count = 0;
+                SVT_VERIF_SEG(3, pcs_ptr, 0, 0, 0, 0);
                 last_sb_flag = EB_FALSE;
                 // Reset MD rate Estimation table to initial values by copying from md_rate_estimation_array
                 if (context_ptr->is_md_rate_estimation_ptr_owner) {
